@@ -80,6 +80,15 @@ fn main() {
                 let codes = match acc { Ok(_) => Vec::new(), Err(e) => e.sorted().codes() };
                 format!("errors={:?} lints={:?} stage=resolved", codes, lint_codes).replace(", ", ",")
             }
+            // first-generation lexer: spans of all tokens (C14/C13: spans lie inside the source and cover the token)
+            "alphalex" => {
+                let src = String::from_utf8(bytes).unwrap();
+                let nchars = src.chars().count();
+                let toks = penne::alpha::lexer::lex(&src, "replay.pn");
+                let maxend = toks.iter().map(|t| t.location.span.end).max().unwrap_or(0);
+                let spans: Vec<String> = toks.iter().map(|t| format!("{}..{}{}", t.location.span.start, t.location.span.end, if t.result.is_err() { "!" } else { "" })).collect();
+                format!("chars={} tokens={} maxend={} out_of_source={} spans={}", nchars, toks.len(), maxend, (maxend > nchars) as u8, spans.join("|"))
+            }
             // C15: delta front end totality
             "delta" => {
                 let tokens = penne::delta::lexer::lex(&bytes, "replay.pn");
